@@ -17,6 +17,27 @@ ASSUMPTIONS = [
 ]
 
 
+def lim(rng, n):
+    """a build configuration with failure limit n (None = no limit) and a random SOURCE of the limit: keyword argument max_failures,
+    keyword argument stop_after_first_failure, the project's config file (max_failures / stop_after_first_failure), or both (same value)"""
+    cfg = {"maxfail": n}
+    if n is not None:
+        cfg["maxfail_src"] = rng.choice(["kwarg", "kwarg", "config", "both"] + (["kwarg_stop", "config_stop"] if n == 1 else []))
+    return cfg
+
+
+def ext_spec(spec):
+    """the spec including the tasks that its task generators create (child 50+id of generator id; optional `gen_child_deps`)"""
+    gens = [t for t in spec["tasks"] if t.get("gen")]
+    if not gens:
+        return spec
+    s = dict(spec)
+    s["tasks"] = list(spec["tasks"]) + [
+        {"id": 50 + t["id"], "module": t["module"], "deps": list(t.get("gen_child_deps", [])), "prods": [7000 + t["id"]], "after": [],
+         "marks": list(t.get("gen_marks", [])), "beh": "ok"} for t in gens]
+    return s
+
+
 def oracle(hist, records):
     bad = []
     prev = None
@@ -32,7 +53,7 @@ def oracle(hist, records):
             bad.append(("exit", f"build raised or returned exit {obs.get('exit')} / {obs.get('raised')} for a project whose only faults are task failures", None))
             prev = None
             continue
-        edges = engine.spec_task_edges(spec)
+        edges = engine.spec_task_edges(ext_spec(spec))     # incl. generated tasks that consume products of other tasks
         out = engine.outcomes(obs)
         ex = engine.executed(obs)
         order = [engine.name_to_id(r[0]) for r in obs["reports"]]
@@ -81,14 +102,14 @@ def histories(ctx):
         # markers that must be irrelevant to containment: skipif(False), try_first / try_last, user markers
         spec = engine.gen_spec(rng, nt=(2, 7), after_p=0.25, after_needs_prods=True, behs=("ok", "ok", "ok", "early", "late", "omit"),
                                marks=(("skipif_false", 0.3), ("try_first", 0.12), ("try_last", 0.12)), user_markers=True)
-        cfg = {"maxfail": rng.choice([None, None, 1, 2, 3])}
+        cfg = lim(rng, rng.choice([None, None, 1, 2, 3]))
         if rng.random() < 0.25:
             cfg["force"] = True
         steps = [["build", cfg]]
         if rng.random() < 0.3:   # missing input
             ins = [int(k) for k in spec["inputs"]]
             steps.insert(0, ["delete", rng.choice(ins)])
-        steps.append(["build", {"maxfail": rng.choice([None, 1, 2])}])
+        steps.append(["build", lim(rng, rng.choice([None, 1, 2]))])
         fails = [t for t in spec["tasks"] if t["beh"] != "ok"]
         if fails and rng.random() < 0.7:
             f = rng.choice(fails)
@@ -117,7 +138,7 @@ def histories(ctx):
         ins = sorted({d for u in ups for d in byid[u]["deps"]} & {int(k) for k in spec["inputs"]}) or [int(k) for k in spec["inputs"]]
         beh = rng.choice(["late", "late", "late", "early", "omit:0"])
         steps = [["build", {}], ["write", rng.choice(ins), rng.randint(100, 999)], ["setbeh", f["id"], beh],
-                 ["build", {"maxfail": rng.choice([None, None, 2])}], ["build", {}]]
+                 ["build", lim(rng, rng.choice([None, None, 2]))], ["build", {}]]
         hs.append({"tag": "persist-dependant", "spec": spec, "steps": steps})
     return hs
 
@@ -151,7 +172,7 @@ def memlink_histories(ctx):
             u = byid[rng.choice(linked)]
             if u["beh"] == "ok":
                 u["beh"] = rng.choice(["early", "late"])
-        steps = [["build", {"maxfail": rng.choice([None, None, 1, 2])}], ["build", {}]]
+        steps = [["build", lim(rng, rng.choice([None, None, 1, 2]))], ["build", {}]]
         hs.append({"tag": "memlink", "spec": spec, "steps": steps})
     return hs
 
@@ -194,7 +215,7 @@ def dirlink_histories(ctx):
                 u["beh"] = f"omit:{rng.randrange(len(u['prods']))}"              # fails in teardown: a file product is never created
             elif r < 0.8:
                 u["beh"] = rng.choice(["late", "early"])
-        steps = [["build", {"maxfail": rng.choice([None, None, 1, 2])}], ["build", {}]]
+        steps = [["build", lim(rng, rng.choice([None, None, 1, 2]))], ["build", {}]]
         hs.append({"tag": "dirlink", "spec": spec, "steps": steps})
     return hs
 
@@ -205,6 +226,13 @@ def generator_histories(ctx):
     implementation-only oracle (contain / limit / exit)."""
     rng = ctx.rng
     hs = []
+
+    def t(i, deps, prods, **kw):
+        return dict({"id": i, "module": 0, "deps": deps, "prods": prods, "after": [], "marks": [], "beh": "ok", "style": "default"}, **kw)
+    # corpus: F37 — task 0 writes its product and raises; the try_last generator 1 then creates task 51, which consumes that product
+    f37 = {"tasks": [t(0, [100], [110], beh="late"), t(1, [100], [111], gen=True, gen_child_deps=[110], marks=["try_last"])],
+           "versions": {"0": 0}, "inputs": {"100": 5}}
+    hs.append({"tag": "generator", "spec": f37, "steps": [["build", {}], ["build", {}]]})
     for i in range(ctx.scale(24, 400)):
         spec = engine.gen_spec(rng, nt=(3, 7), after_p=0.3, after_needs_prods=True, prodless_p=0.05, dens=0.8,
                                behs=("ok", "ok", "ok", "early", "late"), styles=("default", "annotated", "kwargs"),
@@ -217,7 +245,21 @@ def generator_histories(ctx):
             t["gen"] = True
             if rng.random() < 0.6:
                 t["beh"] = rng.choice(["early", "late", "late"])
-        cfg = {"maxfail": rng.choice([None, 1, 1, 2])}
+        # the task a generator creates may consume products of other tasks (which may fail before or after the generator runs,
+        # having written the product or not, or with the product left over from an earlier build)
+        for t in spec["tasks"]:
+            if t.get("gen") and rng.random() < 0.7:
+                pool = [p for u in spec["tasks"] if u["id"] != t["id"] for p in u["prods"]]
+                if pool:
+                    t["gen_child_deps"] = sorted(rng.sample(pool, rng.randint(1, min(2, len(pool)))))
+                    if rng.random() < 0.5 and "try_first" not in t["marks"]:
+                        t["marks"] = sorted(set(t["marks"]) | {"try_last"})
+                    if rng.random() < 0.7:
+                        prod_of = {p: u for u in spec["tasks"] for p in u["prods"]}
+                        u = prod_of[rng.choice(t["gen_child_deps"])]
+                        if u["beh"] == "ok" and not u.get("gen"):
+                            u["beh"] = rng.choice(["late", "late", "early"])
+        cfg = lim(rng, rng.choice([None, 1, 1, 2]))
         steps = [["build", cfg]]
         gens = [t for t in spec["tasks"] if t.get("gen")]
         if rng.random() < 0.5:
@@ -226,7 +268,16 @@ def generator_histories(ctx):
             beh = g["beh"] if g["beh"] != "ok" else "early"
             g["beh"] = "ok"
             steps = [["build", {}], ["setbeh", g["id"], beh], ["build", cfg]]
-        steps.append(["build", {"maxfail": rng.choice([None, 1, 2])}])
+        elif rng.random() < 0.4:
+            # left-over product: the producer of a child's dependency fails (before writing) only after a good build
+            fl = [u for u in spec["tasks"] if u["beh"] in ("early", "late") and not u.get("gen")
+                  and any(set(u["prods"]) & set(g_.get("gen_child_deps", [])) for g_ in gens)]
+            if fl:
+                u = rng.choice(fl)
+                beh = u["beh"]
+                u["beh"] = "ok"
+                steps = [["build", {}], ["setbeh", u["id"], beh], ["build", cfg]]
+        steps.append(["build", lim(rng, rng.choice([None, 1, 2]))])
         hs.append({"tag": "generator", "spec": spec, "steps": steps})
     return hs
 
